@@ -225,6 +225,8 @@ pub fn validate_case_plans(si: &gen::SchemaInfo, text: &str, tmpdir: &str, plans
 /// when non-zero, the per-rule enumerators emit whole-plan cases instead (one in `FULL_MODE` documents)
 pub static PRINTER_LOSSY: std::sync::atomic::AtomicUsize = std::sync::atomic::AtomicUsize::new(0);
 pub static FULL_MODE: std::sync::atomic::AtomicUsize = std::sync::atomic::AtomicUsize::new(0);
+/// in full mode: emit termination cases (C03) instead of accept cases (C01/C02)
+pub static FULL_TERMINATION: std::sync::atomic::AtomicBool = std::sync::atomic::AtomicBool::new(false);
 static FULL_COUNT: std::sync::atomic::AtomicUsize = std::sync::atomic::AtomicUsize::new(0);
 
 /// number of selection nodes after expanding every fragment spread (acyclic documents), capped
@@ -270,7 +272,9 @@ fn full_mode(si: &gen::SchemaInfo, text: &str, tmpdir: &str, meta: serde_json::V
     use std::sync::atomic::Ordering::Relaxed;
     let k = FULL_MODE.load(Relaxed);
     if k == 0 { return false; }
-    if FULL_COUNT.fetch_add(1, Relaxed) % k == 0 { accept_case(si, text, tmpdir, meta, out); }
+    if FULL_COUNT.fetch_add(1, Relaxed) % k == 0 {
+        if FULL_TERMINATION.load(Relaxed) { termination_case(si, text, tmpdir, "rule-enumerator", out); } else { accept_case(si, text, tmpdir, meta, out); }
+    }
     true
 }
 
